@@ -9,6 +9,7 @@ import (
 	"github.com/php-any/origami/node"
 	"github.com/php-any/origami/parser"
 	"github.com/php-any/origami/runtime"
+	"github.com/php-any/origami/std/exception"
 )
 
 // Obs is one observation made by the running script.
@@ -102,6 +103,11 @@ func Compile(src string) *Script {
 	vm := runtime.NewVM(p)
 	vm.AddFunc(&emitFn{})
 	vm.AddFunc(&markFn{})
+	// Throwable / Exception as registered by std.Load (package std itself is not imported:
+	// it drags the database drivers into the SSA program)
+	vm.AddInterface(exception.NewThrowableInterface())
+	vm.AddInterface(exception.NewStringableInterface())
+	vm.AddClass(exception.NewExceptionClass())
 	for _, b := range Builtins {
 		vm.AddFunc(b())
 	}
